@@ -22,6 +22,8 @@ LEVEL_TEXT = ('Decides from the source: Node._cached_children, interpreted on ch
               'graphs).')
 TECHNIQUE += '; interpretation of the declared-base resolution of the model builder for every subset of known names'
 LEVEL_TEXT += ' Added clause: a class declared `::Name::Base` is created with the declared bases whether or not each name is already known to the builder.'
+TECHNIQUE += '; construction contracts interpreted on stand-ins (untyped rule keeps its AST; typed rule hands AST and further parameters to the first name of the spec; constructor lookup registered -> builtin -> synthesized-and-registered; SynthNode/BaseNode attribute injection incl. falsy values; non-dict AST kept)'
+LEVEL_TEXT += ' Added clauses: see technique (C07.R5).'
 LEVEL_NOTE = 'Eager interpretation of generators (a generator call whose values are not consumed contributes nothing, as in Python).'
 EXPLANATION = ('Static analysis of /repo sources, TatSu not imported. The dfs inside Node._cached_children is interpreted by the '
                'whitelisted evaluator; walkers are checked structurally.')
